@@ -14,43 +14,8 @@ Proof.
   destruct (Nat.eq_dec (Nat.sqrt a) (Nat.sqrt b)) as [He|Hne]; [|lia]. rewrite He in *. lia.
 Qed.
 
-Lemma windows2_any_pairwise {A} (f : A -> A -> bool) l : pairwise (fun a b => negb (f a b)) l = true -> windows2_any f l = false.
-Proof.
-  induction l as [|a l IH]; [reflexivity|]. rewrite pw_cons. intros H. apply andb_prop in H. destruct H as [Ha Hl].
-  destruct l as [|b r]; [reflexivity|]. change (windows2_any f (a :: b :: r)) with (f a b || windows2_any f (b :: r)).
-  rewrite (IH Hl), orb_false_r. cbn [forallb] in Ha. apply andb_prop in Ha. destruct Ha as [Ha _]. now apply negb_true_iff.
-Qed.
-Lemma windows2_any_in {A} (f : A -> A -> bool) l : windows2_any f l = true -> exists a b, In a l /\ In b l /\ f a b = true.
-Proof.
-  induction l as [|a l IH]; [discriminate|]. destruct l as [|b r]; [discriminate|].
-  change (windows2_any f (a :: b :: r)) with (f a b || windows2_any f (b :: r)). intros H. apply orb_true_iff in H. destruct H as [H|H].
-  - exists a, b. cbn. tauto.
-  - destruct (IH H) as (x & y & Hx & Hy & Hf). exists x, y. split; [now right|]. split; [now right|exact Hf].
-Qed.
-Lemma req_spans_flat bs : req_spans bs = flat_map req_kind_span bs.
-Proof.
-  induction bs as [|b r IH]; [reflexivity|]. cbn [req_spans flat_map]. rewrite IH.
-  destruct b as [w|o|e l dur|e l dur]; cbn [req_span req_kind_span app]; try reflexivity.
-  destruct (tm_val e), (tm_val l); reflexivity.
-Qed.
-Lemma spans_fail_g2 s : g2_shift s = false -> spans_fail (req_spans (olist (sh_breaks s))) = false.
-Proof.
-  unfold g2_shift, spans_fail. rewrite req_spans_flat. change (olist (sh_breaks s)) with (match sh_breaks s with Some bs => bs | None => [] end).
-  set (spans := flat_map req_kind_span _). cbv zeta. intros H. apply orb_false_iff in H. destruct H as [Hk Hp].
-  apply negb_false_iff in Hp. apply orb_false_iff. split.
-  - destruct (windows2_any (fun a b : bool * tw => negb (Bool.eqb (fst a) (fst b))) spans) eqn:E; [|reflexivity]. exfalso. destruct (windows2_any_in _ _ E) as (a & b & Ha & Hb & Hf).
-    rewrite existsb_false in Hk. specialize (Hk a Ha). cbn beta in Hk. rewrite existsb_false in Hk. specialize (Hk b Hb). cbn beta in Hk, Hf. exact (eq_true_false_abs _ Hf Hk).
-  - rewrite (pairwise_perm _ (fun a b => f_equal negb (overlap_sym a b)) _ _ (sort_perm (map snd spans))) in Hp.
-    rewrite (pairwise_ext _ (fun a b => negb (intersects a b))) in Hp by (intros; now rewrite overlap_eq).
-    now apply windows2_any_pairwise.
-Qed.
 Lemma reserved_ok d : g2_required_breaks d = false -> reserved_fails (xbase d) = false.
-Proof.
-  unfold g2_required_breaks, reserved_fails. intros H. apply existsb_false. intros v Hv.
-  change (d_vehicles (xbase d)) with (xvehicles d) in Hv. rewrite existsb_false in H. specialize (H v Hv). cbn beta in H.
-  destruct (v_ids v) as [|i0 ids0]; [reflexivity|]. cbn [nonempty andb] in H. apply existsb_false. intros s Hs.
-  rewrite existsb_false in H. now apply spans_fail_g2, H.
-Qed.
+Proof. exact (reserved_ok_base (xbase d)). Qed.
 
 Lemma tw_panics_not_dates w : tw_panics w = true -> window_is_dates w = false.
 Proof.
@@ -219,7 +184,7 @@ Qed.
 Lemma matrix_data_covers m x y : matrix_data m = Some (x, y) -> List.length y = List.length x -> (List.length (m_dist m) <= List.length x)%nat.
 Proof.
   intros H Hxy. destruct (matrix_step_spec_l m) as (_ & Hsome & Hnone). destruct (m_errors m) as [ec|] eqn:Ee.
-  - destruct (Hsome ec x y eq_refl H) as (Hx & _ & Hle). lia.
+  - destruct (Hsome ec x y eq_refl H) as (Hx & _ & Hle & _). lia.
   - rewrite (Hnone eq_refl) in H. inversion H; subst. lia.
 Qed.
 Lemma combine_seq_in {A} (ds : list A) : forall start p l, In (p, l) (combine (seq start (List.length ds)) ds) ->
@@ -260,7 +225,7 @@ Section XSafe.
 
   Lemma base_rules : forall c, In c (map fst all_checks) -> violates c (xbase d) = false.
   Proof.
-    destruct (xknown_false d Hk) as (Hkb & _). destruct (known_false _ Hkb) as (_ & _ & _ & K9).
+    destruct (xknown_false d Hk) as (Hkb & _). destruct (known_false _ Hkb) as (_ & _ & _ & K9 & _).
     assert (H1302 : Rules.viol_1302 (xbase d) = false) by (apply (Hv 1302); cbn; tauto).
     intros c Hc. unfold all_checks, jobs_checks, vehicles_checks, routing_checks in Hc. cbn [map app In fst] in Hc.
     repeat (destruct Hc as [<-|Hc]; [match goal with |- violates ?c _ = false =>
@@ -527,6 +492,68 @@ Proof.
     + (* no unnamed matrix although none is named: the empty list again *)
       destruct ms as [|m ms']; [cbn in En; discriminate|]. cbn [existsb forallb] in Hun, Eu. apply orb_false_iff in Hun. destruct Hun as [Hm _].
       apply andb_prop in Eu. destruct Eu as [Em _]. congruence.
+Qed.
+
+(* ---------- the extended model is conservative over the base model ---------- *)
+Lemma has_location_any d : has_location d = any_location d.
+Proof. reflexivity. Qed.
+
+Lemma filter_skip {A} (f : A -> bool) x l : f x = false -> filter f (x :: l) = filter f l.
+Proof. intros H. cbn [filter]. now rewrite H. Qed.
+Lemma filter_congr {A} (f g : A -> bool) x l l' : f x = g x -> filter f l = filter g l' -> filter f (x :: l) = filter g (x :: l').
+Proof. intros H E. cbn [filter]. now rewrite H, E. Qed.
+Lemma base_document_spec_result d : is_base_document d = true -> xspec_result d = spec_result (xbase d).
+Proof.
+  unfold is_base_document. intros H. repeat (apply andb_prop in H; destruct H as [H ?]).
+  destruct (x_relations d) eqn:Er; [discriminate|]. destruct (x_objectives d) eqn:Eo; [discriminate|].
+  destruct (x_clustering d) eqn:Ec; [discriminate|]. destruct (x_matrices d) eqn:Em; [discriminate|].
+  match goal with Hi : negb (existsb is_index _) = true |- _ => apply negb_true_iff in Hi; rename Hi into Hidx end.
+  match goal with Hl : Bool.eqb _ _ = true |- _ => apply Bool.eqb_prop in Hl; rename Hl into Hloc end.
+  assert (R : forall c, In c [1200; 1201; 1202; 1203; 1204; 1205; 1206; 1207] -> xviolates c d = false).
+  { intros c Hc. cbn [In] in Hc. repeat (destruct Hc as [<-|Hc]; [unfold xviolates; cbn [xlookup xspec_table Z.eqb Pos.eqb];
+      unfold viol_1200, viol_1201, viol_1202, viol_1203, viol_1204, viol_1205, viol_1206, viol_1207, RulesX.rels; now rewrite Er|]). destruct Hc. }
+  assert (O : forall c, In c [1600; 1601; 1602; 1603; 1604; 1605; 1606; 1607] -> xviolates c d = false).
+  { intros c Hc. cbn [In] in Hc. repeat (destruct Hc as [<-|Hc]; [unfold xviolates; cbn [xlookup xspec_table Z.eqb Pos.eqb];
+      unfold viol_1600, viol_1601, viol_1602, viol_1603, viol_1604, viol_1605, viol_1606, viol_1607, with_objectives; now rewrite Eo|]). destruct Hc. }
+  assert (H1502 : xviolates 1502 d = false).
+  { change (xviolates 1502 d) with (xviol_1502 d). unfold xviol_1502. change loc_is_index with is_index. now rewrite Hidx. }
+  assert (H1503 : xviolates 1503 d = false).
+  { change (xviolates 1503 d) with (xviol_1503 d). unfold xviol_1503. change loc_is_index with is_index. now rewrite Hidx. }
+  assert (H1504 : xviolates 1504 d = violates 1504 (xbase d)).
+  { change (xviolates 1504 d) with (xviol_1504 d). change (violates 1504 (xbase d)) with (Rules.viol_1504 (xbase d)).
+    unfold xviol_1504, Rules.viol_1504. rewrite Em. change loc_is_index with is_index. rewrite Hidx, Hloc, has_location_any. reflexivity. }
+  assert (H1505 : xviolates 1505 d = violates 1505 (xbase d)).
+  { change (xviolates 1505 d) with (xviol_1505 d). change (violates 1505 (xbase d)) with (Rules.viol_1505 (xbase d)).
+    unfold xviol_1505. rewrite Ec. apply orb_false_r. }
+  unfold xspec_result, spec_result.
+  assert (E : filter (fun c => xviolates c d) (map fst xall_checks) = filter (fun c => violates c (xbase d)) (map fst all_checks)).
+  { change (map fst xall_checks) with
+      [1100; 1101; 1102; 1103; 1104; 1105; 1106; 1107; 1300; 1301; 1302; 1303; 1304; 1306; 1307; 1308;
+       1600; 1601; 1602; 1603; 1604; 1605; 1606; 1607; 1500; 1501; 1502; 1503; 1504; 1505;
+       1200; 1201; 1202; 1203; 1204; 1205; 1206; 1207].
+    change (map fst all_checks) with
+      [1100; 1101; 1102; 1103; 1104; 1105; 1106; 1107; 1300; 1301; 1302; 1303; 1304; 1306; 1307; 1308; 1500; 1501; 1504; 1505].
+    do 16 (apply filter_congr; [reflexivity|]).
+    do 8 (rewrite filter_skip by (apply O; cbn; tauto)).
+    do 2 (apply filter_congr; [reflexivity|]).
+    rewrite filter_skip by exact H1502. rewrite filter_skip by exact H1503.
+    apply filter_congr; [exact H1504|]. apply filter_congr; [exact H1505|].
+    do 8 (rewrite filter_skip by (apply R; cbn; tauto)). reflexivity. }
+  now rewrite E.
+Qed.
+
+Lemma xconservative_l d : is_base_document d = true -> xknown d = false -> xread d = read (xbase d).
+Proof.
+  intros Hp Hk. destruct (xknown_false d Hk) as (Hkb & _).
+  rewrite (xread_cases d Hk), (base_document_spec_result d Hp).
+  unfold read, validate_approx. rewrite (approx_ok (xbase d)), (validate_spec (xbase d) Hkb).
+  destruct (spec_result_cases (xbase d)) as [[E Hv]|(cs & E & _)]; rewrite E; [|reflexivity].
+  rewrite (read_tail_ok (xbase d) Hkb Hv).
+  assert (Hx : xspec_result d = VOk) by (rewrite (base_document_spec_result d Hp); exact E).
+  destruct (xspec_result_cases d) as [[_ Hxv]|(cs & E' & _)]; [|congruence].
+  unfold is_base_document in Hp. repeat (apply andb_prop in Hp; destruct Hp as [Hp ?]).
+  destruct (x_matrices d) eqn:Em; [discriminate|].
+  rewrite (approx_transport_ok d Em); [reflexivity| | |]; apply Hxv; cbn; tauto.
 Qed.
 
 (* ---------- witnesses on the extended document (evaluated, not assumed) ---------- *)
